@@ -41,7 +41,9 @@ class GenModel(nn.Module):
             if ps["kind"] == "euclid":
                 p = nn.Parameter(rng.randn(seed, ("p", i), (ps["k"],), dtype, 0.7))
             elif ps["kind"] == "alg":
-                p = pp.Parameter(rand_alg(seed, ("p", i), shape, ps["fam"], dtype))
+                # ps["big"]: a rotation vector longer than pi (legal for an algebra element; Exp wraps it, the parameter
+                # itself is just a vector and is updated by addition)
+                p = pp.Parameter(rand_alg(seed, ("p", i), shape, ps["fam"], dtype, 4.5 if ps.get("big") else 0.5))
             else:
                 p = pp.Parameter(rand_grp(seed, ("p", i), shape, ps["fam"], dtype))
             if ps.get("frozen"):
@@ -217,6 +219,9 @@ def gen_spec(r, prop, allow_frozen=True):
         cand = [k for k, ps in enumerate(params) if ps["kind"] in ("euclid", "alg")]
         if cand:
             residuals.append({"tpl": "prior", "p": r.choice(cand)})
+    for ps in params:
+        if ps["kind"] == "alg" and r.random() < 0.15:
+            ps["big"] = True
     if allow_frozen and len(params) >= 2 and r.random() < 0.3:
         params[r.randrange(len(params))]["frozen"] = True
     return {"params": params, "residuals": residuals}
